@@ -410,6 +410,11 @@ def case_singvec(ctx, rng, idx):
         ctx.within("singular-selectors",
                    float(np.max(np.abs(np.sort(np.linalg.norm(A @ V1, axis=0)) -
                                        np.sort(asc[k:])))), tol, "V1-are-dominant", d)
+        # S[i] is documented as the singular value of the i-th column of V1
+        if np.shape(S) == (n - k,):
+            ctx.within("singular-selectors",
+                       float(np.max(np.abs(np.linalg.norm(A @ V1, axis=0) - np.asarray(S)))),
+                       tol, "S-in-the-order-of-V1", d)
     # principal components: the r dominant left singular directions are kept
     r = int(rng.integers(1, min(m, n) + 1))
     if m < n:       # only defined for tall/square matrices (as the IA code uses it)
